@@ -1,5 +1,6 @@
 import RsslVerif.Driver.Loop
-import RsslVerif.Driver.C01
+import RsslVerif.Driver.C01Vec
 /-! `rsslmodel_c01`: the C01 model behind the line protocol (one executable per property, so that a
-    table that can no longer be extracted for one property cannot break another property's check). -/
-def main : IO Unit := RsslVerif.Driver.runDriver RsslVerif.Driver.C01.handle
+    table that can no longer be extracted for one property cannot break another property's check).
+    `Driver.C01Vec.handle` answers the vector-layer requests (`C01.vex`) and passes everything else to `Driver.C01.handle`. -/
+def main : IO Unit := RsslVerif.Driver.runDriver RsslVerif.Driver.C01Vec.handle
